@@ -1494,7 +1494,7 @@ class Interp:
             if how == 'await' and expr is not None and self._is_condition(expr, fr):
                 # await post-condition: `await c` returns only while c holds
                 # (licensed by the EXIT-PRED rule of C08)
-                key, positive = self.atom_key(expr, fr)
+                key, positive = self.atom_key(self._as_predicate(expr, fr) or expr, fr)
                 if key is not None:
                     st.facts[key] = positive
             results.append((NORMAL, st))
@@ -2182,6 +2182,10 @@ class Interp:
             for s in sts:
                 out.extend(self.eval_test(expr.target, s, fr, raised, record))
             return out
+        named = self._as_predicate(expr, fr)
+        if named is not None:
+            # `if self._is_ready():` with `def _is_ready(self): return a >= b`
+            return self.eval_test(named, st, fr, raised, record)
         quantified = self._quantifier_test(expr, st, fr, raised, record)
         if quantified is not None:
             return quantified
@@ -2256,6 +2260,64 @@ class Interp:
         return None
 
     TRUTH_DEPTH = 4
+
+    _PREDICATES = {}
+
+    def _as_predicate(self, expr, fr: DynFrame):
+        """
+        the expression a *named predicate* stands for: ``self._p(x)`` where ``_p`` is a
+        side-effect free method of the same object whose whole body is ``return <expr>``;
+        parameters are replaced by the (simple) arguments.  None otherwise.
+        """
+        if not (isinstance(expr, ast.Call) and isinstance(expr.func, ast.Attribute)
+                and isinstance(expr.func.value, ast.Name) and not expr.keywords):
+            return None
+        key = ('call', id(expr), fr.frame.key())
+        found = self._resolve_cache.get(key)
+        if found is None:
+            found = self.te.resolve_callees(expr, fr.frame)
+            self._resolve_cache[key] = found
+        callees, externals = found
+        if len(callees) != 1 or externals:
+            return None
+        callee = callees[0]
+        fn = callee.fn
+        if fn.kind != 'sync' or fn.is_property or fn.is_static or fn.is_classmethod or \
+                fn.cls is None or not (self._same_self(expr, fr, callee)
+                                       or self._same_receiver(expr, fr, callee)):
+            return None
+        body = [stmt for stmt in fn.node.body
+                if not (isinstance(stmt, ast.Expr) and isinstance(stmt.value, ast.Constant))]
+        if len(body) != 1 or not isinstance(body[0], ast.Return) or body[0].value is None:
+            return None
+        params = [a.arg for a in fn.node.args.posonlyargs + fn.node.args.args][1:]
+        if len(params) != len(expr.args) or fn.node.args.vararg or fn.node.args.kwarg or \
+                not all(isinstance(a, (ast.Name, ast.Attribute, ast.Constant))
+                        for a in expr.args):
+            return None
+        value = body[0].value
+        # only plain order comparisons: identity / isinstance predicates are decided with
+        # the types and identities of the arguments by running the helper inline
+        if not (isinstance(value, ast.Compare) and len(value.ops) == 1 and isinstance(
+                value.ops[0], (ast.Lt, ast.LtE, ast.Gt, ast.GtE))) or any(
+                isinstance(n, ast.Call) for n in ast.walk(value)):
+            return None
+        import copy
+        bound = dict(zip(params, expr.args))
+        receiver = expr.func.value.id
+        own = (fn.node.args.posonlyargs + fn.node.args.args)[0].arg
+
+        class Sub(ast.NodeTransformer):
+            def visit_Name(self, node):
+                if node.id in bound:
+                    return copy.deepcopy(bound[node.id])
+                if node.id == own:
+                    return ast.Name(id=receiver, ctx=node.ctx)
+                return node
+        result = Sub().visit(copy.deepcopy(body[0].value))
+        for node in ast.walk(result):
+            ast.copy_location(node, expr)
+        return result
 
     def _quantifier_test(self, expr, st: St, fr: DynFrame, raised, record):
         """
